@@ -249,6 +249,11 @@ func NormalizePanic(s string) string {
 // SpinningFunc names the gopatch function whose loop did not terminate in the
 // most recent no-progress run (stable across where exactly the budget ran out).
 func SpinningFunc(stack string) string {
+	// a loop in one of the instrumented dependency files is named as such
+	if dep := simrt.SpinFunc("golang.org/x/tools/"); dep != "" {
+		dep = strings.TrimPrefix(dep, "recursion:")
+		return "dep:" + reClosure.ReplaceAllString(strings.TrimPrefix(dep, "golang.org/x/tools/"), "")
+	}
 	fn := simrt.SpinFunc("github.com/uber-go/gopatch")
 	if fn == "" {
 		return InnermostRepoFunc(stack)
